@@ -491,3 +491,119 @@ func VerifC02_ValueMapping() {
 	vrt.Assert(vrt.TWellFormed(out, vrt.TSTRUCT, 3), "C02.valuemapping.well-formed")
 	vrt.Assert(vrt.BytesEq(out, 0, len(out), want, 0, len(want)), "C02.valuemapping.field-written-once-with-value")
 }
+
+func init() {
+	vrt.Register("VerifC02_Escapes", VerifC02_Escapes)
+	vrt.Register("VerifC02_SkippedValues", VerifC02_SkippedValues)
+}
+
+// VerifC02_Escapes: a top-level JSON string built from one symbolic plain character, one escape sequence of
+// the table ESC (every short escape, BMP \u escapes in both hex cases, a surrogate pair) and an optional plain
+// tail converts to exactly the denoted UTF-8 text; ESC=0 is \u00XY with symbolic hex digits.
+func VerifC02_Escapes() {
+	type esc struct{ text, want string }
+	tab := []esc{
+		{"", ""}, // placeholder for the symbolic \u00XY case
+		{`\n`, "\n"}, {`\t`, "\t"}, {`\r`, "\r"}, {`\b`, "\b"}, {`\f`, "\f"}, {`\"`, "\""}, {`\\`, "\\"},
+		{"\\u000b", "\x0b"},
+		{"\\u001F", "\x1f"},
+		{"\\u001a", "\x1a"},
+		{"\\u00e9", "\xc3\xa9"},
+		{"\\u00E9", "\xc3\xa9"},
+		{"\\u2028", "\xe2\x80\xa8"},
+		{"\\uffff", "\xef\xbf\xbf"},
+		{"\\u0041", "A"},
+		{"\\ud83d" + "\\ude00", "\xf0\x9f\x98\x80"},
+		{"\\uD83D" + "\\uDE00", "\xf0\x9f\x98\x80"},
+		{"\\ud800" + "\\udc00", "\xf0\x90\x80\x80"},
+		{"\\udbff" + "\\udfff", "\xf4\x8f\xbf\xbf"},
+	}
+	e := tab[vrt.Param("ESC")]
+	if vrt.Param("ESC") == 0 {
+		hexv := func(c byte) int {
+			switch {
+			case c >= '0' && c <= '9':
+				return int(c - '0')
+			case c >= 'a' && c <= 'f':
+				return int(c-'a') + 10
+			}
+			return int(c-'A') + 10
+		}
+		x, y := vrt.U8(), vrt.U8()
+		isHex := func(c byte) bool {
+			return (c >= '0' && c <= '9') || (c >= 'a' && c <= 'f') || (c >= 'A' && c <= 'F')
+		}
+		vrt.Assume(isHex(x) && isHex(y))
+		v := hexv(x)<<4 | hexv(y)
+		e.text = string([]byte{'\\', 'u', '0', '0', x, y})
+		if v < 0x80 {
+			e.want = string([]byte{byte(v)})
+		} else {
+			e.want = string([]byte{0xc0 | byte(v>>6), 0x80 | byte(v&0x3f)})
+		}
+	}
+	c := vrt.U8()
+	vrt.Assume(c >= 0x20 && c < 0x7f && c != '"' && c != '\\')
+	tail := vrt.Param("TAIL")
+	doc := []byte{'"', c}
+	doc = append(doc, e.text...)
+	want := append([]byte{c}, e.want...)
+	for i := 0; i < tail; i++ {
+		doc = append(doc, 'z')
+		want = append(want, 'z')
+	}
+	doc = append(doc, '"')
+	cv := NewBinaryConv(conv.Options{})
+	buf := make([]byte, 0, 8)
+	err := cv.DoInto(context.Background(), thrift.VerifBasic(thrift.STRING), doc, &buf)
+	vrt.Assert(err == nil, "C02.escapes.converts")
+	if err != nil {
+		return
+	}
+	vrt.Reach("converted")
+	exp := vrt.PutString(nil, want)
+	vrt.Assert(vrt.BytesEq(buf, 0, len(buf), exp, 0, len(exp)), "C02.escapes.denoted-text")
+}
+
+// VerifC02_SkippedValues: an unknown member whose value is any JSON value of the table (number spellings with
+// fractions and signed exponents, strings holding brackets and escapes, nested containers, literals) is
+// skipped whole: the document converts to what it converts to without that member.
+func VerifC02_SkippedValues() {
+	vals := []string{
+		`0`, `-0`, `12`, `1.5`, `-1.5e3`, `1e5`, `1E5`, `1e-5`, `6.02E+23`, `-0.5e+1`, `0.0e-0`,
+		`"x"`, `"a}b"`, `"a]b"`, `"q\"}"`, `"\\"`, `"]"`, `""`,
+		`true`, `false`, `null`,
+		`[]`, `{}`, `[1,2]`, `{"a":1}`, `[[],{}]`, `{"a":{"b":"}"}}`, `[ "]" , 1e-2 ]`, `{"k":[1e+2,"}"]}`,
+	}
+	v := vals[vrt.Param("V")]
+	where := vrt.Param("WHERE") // 0 first member, 1 between, 2 last
+	st := thrift.VerifStruct("U", thrift.Options{},
+		thrift.VField{ID: 1, Name: "a", Type: thrift.VerifBasic(thrift.I32), Req: 2},
+		thrift.VField{ID: 2, Name: "msg", Type: thrift.VerifBasic(thrift.STRING), Req: 2})
+	d := vrt.U8()
+	vrt.Assume(d >= '0' && d <= '9')
+	a := `"a":` + string([]byte{d})
+	m := `"msg":"m"`
+	u := `"zz":` + v
+	var doc string
+	switch where {
+	case 0:
+		doc = "{" + u + "," + a + "," + m + "}"
+	case 1:
+		doc = "{" + a + "," + u + "," + m + "}"
+	default:
+		doc = "{" + a + "," + m + "," + u + "}"
+	}
+	var want []byte
+	want = vrt.PutBE32(vrt.PutField(want, vrt.TI32, 1), int(d-'0'))
+	want = vrt.PutString(vrt.PutField(want, vrt.TSTRING, 2), []byte("m"))
+	want = append(want, 0)
+	cv := NewBinaryConv(conv.Options{})
+	out, err := cv.Do(context.Background(), st, []byte(doc))
+	vrt.Assert(err == nil, "C02.skipped-value.converts")
+	if err != nil {
+		return
+	}
+	vrt.Reach("converted")
+	vrt.Assert(vrt.BytesEq(out, 0, len(out), want, 0, len(want)), "C02.skipped-value.rest-unchanged")
+}
